@@ -41,6 +41,9 @@ PROP = [  # (substring of the commit subject, property, what failed before the f
  ('asserted c <= 0 on a quantity', 'C12', 'both Prinz MLE implementations raised AssertionError (assert c <= 0) from rounding on strongly connected count matrices with pendant states'),
  ('rejected a lengths hint of numpy integers', 'C15', 'load_as_concatenated(files, lengths=<numpy integers>) raised TypeError'),
  ('weighted_mi failed for integer weight vectors', 'C18', 'weighted_mi with an integer one-hot weight vector raised UFuncTypeError'),
+ ('0-d population array for one-state', 'C16', 'MSM.load of a one-state model returned 0-d eq_probs_ (shape differs from the saved model; second save failed)'),
+ ('save(force=True) could not replace', 'C16', 'MSM.save(path, force=True) raised on an existing model directory (os.remove on a directory)'),
+ ('wrapped frame indices for narrow label dtypes', 'C10', 'find_cluster_centers with int8/uint8 assignments returned wrapped frame indices >= 128/256; list inputs mis-compared'),
 ]
 log = subprocess.run(['git', '-C', '/repo', 'log', '--reverse', '--format=%h|%s'], capture_output=True, text=True).stdout.strip().split('\n')
 fixed = []
